@@ -19,7 +19,6 @@ import (
 	"encoding/json"
 	"fmt"
 	"os"
-	"sort"
 	"strings"
 	"testing"
 
@@ -78,15 +77,6 @@ func (v *vViewC10) byPack() map[string][]vEntC10 {
 		m[en.Pack] = append(m[en.Pack], en)
 	}
 	return m
-}
-
-func vSortedKeysC10[V any](m map[string]V) []string {
-	ks := make([]string, 0, len(m))
-	for k := range m {
-		ks = append(ks, k)
-	}
-	sort.Strings(ks)
-	return ks
 }
 
 // vRunPruneC10 runs the prune command in JSON mode and returns the statistics it printed.
@@ -342,8 +332,10 @@ func vCaseC10(t *rapid.T, st *verifkit.Stats) {
 				fresh = append(fresh, vFreshBlobC10{restic.TreeBlob, tj})
 			}
 			withSnap = rapid.IntRange(0, 3).Draw(t, "mixSnap") != 0
-			if h.Version == "2" && e.gopts.Compression != repository.CompressionOff {
-				nonSingle = true // hand-made blobs are stored uncompressed
+			if h.Version == "2" {
+				// hand-made blobs are stored uncompressed; restic itself compresses tree blobs in
+				// every mode of a v2 repository and data blobs in every mode but off
+				nonSingle = true
 			}
 		}
 		name, err := vCraftPackC10(e.store, key, copies, fresh, rapid.Uint64().Draw(t, "mixSeed"), true)
